@@ -124,6 +124,17 @@ def run(tier):
         k = r_.choice([0, 1, 2, 5, 20, 200])
         texts.append("".join(chr(r_.choice([r_.randint(0, 127), r_.randint(0, 0x2FFF), r_.randint(0, 0x10FFFF)]))
                              for _ in range(k)).encode("utf-8", "ignore").decode("utf-8", "ignore"))
+    # long tokens with a multi-byte character at every offset around the powers of two and 60..70, 250..260 octets
+    # (anything that cuts text by byte positions), in every field of a hosts line and of a zone entry; and every
+    # base text without its final newline, with and without a trailing comment
+    for k in list(range(28, 36)) + list(range(58, 72)) + list(range(124, 132)) + list(range(250, 260)):
+        for ch in ("\u00e9", "\u20ac", "\U0001f600"):
+            tok = "x" * k + ch + "y" * 5
+            texts += [tok + " name", "10.0.0.1 " + tok, "10.0.0.1 a " + tok, tok + " 300 IN A 10.0.0.1", "a 300 IN TXT " + tok,
+                      "a 300 IN CNAME " + tok, "$ORIGIN " + tok, "a 300 IN A 10.0.0.1 ; " + tok, "10.0.0.1 a # " + tok]
+    for b in base[:60]:
+        t = b.rstrip("\n")
+        texts += [t, t + " ; c", t + ";", t + " # c", t + "#", t + " (", t + ' "']
     texts = [t for t in texts if all(not (0xD800 <= ord(c) <= 0xDFFF) for c in t)]
     items = [{"text": cps(t)} for t in texts] + stress_inputs()
     obs, crashes = wc.run_harness_lines("parse-only", os.path.join(wd, "tv.in"), os.path.join(wd, "tv.out"), items,
